@@ -154,8 +154,9 @@ func harnessC14matrix() {
 	o.allowed = vChoice(3)
 	o.tls = vChoice(6)
 	o.cmd = vChoice(2) == 1
-	if o.grpc {
-		o.mux = vChoice(2) == 1
+	o.mux = vChoice(2) == 1 // requested by the host whatever the plugin speaks: a net/rpc plugin just ignores it
+	if o.mux && !o.grpc {
+		vCover("mux-requested-netrpc-plugin")
 	}
 	w := wSetup(o)
 	c, p := w.c, w.p
@@ -200,7 +201,7 @@ func harnessC14matrix() {
 	if o.tls == 1 {
 		vCover("automtls")
 	}
-	if o.mux {
+	if o.mux && o.grpc {
 		vCover("mux")
 	}
 	c.Kill()
@@ -361,7 +362,10 @@ func harnessC12damagedCert() {
 	var o wOpts
 	o.grpc = vChoice(2) == 1
 	o.tls = 1
-	o.certMangle = 1
+	o.certMangle = 1 + vChoice(2) // 1: damaged on the way; 2: dropped (a plugin that takes no part in AutoMTLS and serves in clear text)
+	if o.certMangle == 2 {
+		vCover("plugin-ignores-automtls")
+	}
 	o.allowed = 1
 	o.cmd = vChoice(2) == 1
 	w := wSetup(o)
@@ -380,6 +384,13 @@ func harnessC12damagedCert() {
 	vAssert(!r.panicked, "C12: a damaged client certificate does not make the host panic")
 	if r.err != nil {
 		vCover("host-refused-too")
+	}
+	if o.certMangle == 2 {
+		// the plugin serves in clear text and announced no certificate: an AutoMTLS host must not talk to it
+		vAssert(r.err != nil, "C12: with AutoMTLS the host talks only to a plugin whose certificate came back in the handshake (never in clear text)")
+		c.Kill()
+		vCover("damaged-cert-done")
+		vDone()
 	}
 	servedBefore := w.plugPl.made
 	n := 0
@@ -1079,6 +1090,11 @@ func harnessC17world() {
 	cfg := w.c.config
 	cfg.SkipHostEnv = skip
 	cfg.MinPort, cfg.MaxPort = 10000, 10500
+	wantMin := "10000"
+	if vChoice(2) == 1 {
+		cfg.MinPort, wantMin = 0, "0" // a bound of zero is a value like any other: it is passed, not left to be inherited
+		vCover("zero-min-port")
+	}
 	if group != "" {
 		cfg.UnixSocketConfig = &UnixSocketConfig{Group: group}
 	}
@@ -1108,7 +1124,7 @@ func harnessC17world() {
 	v, ok := wEffective(got, "COOKIE")
 	vAssert(ok && v == "V", "C17: the magic cookie is passed")
 	v, ok = wEffective(got, "PLUGIN_MIN_PORT")
-	vAssert(ok && v == "10000", "C17: the port range is passed (min)")
+	vAssert(ok && v == wantMin, "C17: the port range is passed (min)")
 	v, ok = wEffective(got, "PLUGIN_MAX_PORT")
 	vAssert(ok && v == "10500", "C17: the port range is passed (max)")
 	v, ok = wEffective(got, "PLUGIN_PROTOCOL_VERSIONS")
@@ -1160,7 +1176,14 @@ func harnessC13start() {
 	o.cmd = vChoice(2) == 1
 	d := vNondetBytes("d", 2)
 	c := vNondetBytes("c", 3)
+	missing := false
 	if o.cmd && vChoice(2) == 1 {
+		// the file cannot be opened where Check looks for it (e.g. a relative Path that os/exec resolves against cmd.Dir
+		// while Check resolves it against the host's working directory): nothing can be verified, nothing may be launched
+		vCover("file-not-found")
+		missing = true
+		wCmdPath = "./wplugin"
+	} else if o.cmd && vChoice(2) == 1 {
 		// the command path runs through a symbolic link followed by "..": the file the kernel executes (digest d) is not
 		// the file the lexically cleaned path names - and that one is a decoy whose digest IS the configured checksum
 		vCover("path-through-symlink")
@@ -1182,6 +1205,11 @@ func harnessC13start() {
 		}
 	}
 	launched := w.p.started > 0
+	if missing {
+		vAssert(!launched && err != nil, "C13: a binary that cannot be read for verification is not launched")
+		w.c.Kill()
+		vDone()
+	}
 	if o.cmd {
 		if equal && len(c) > 0 {
 			vCover("launched")
@@ -1224,6 +1252,10 @@ func harnessC05killAfter() {
 			<-wNever
 		}
 	}
+	if vChoice(2) == 1 {
+		w.c.config.UnixSocketConfig = &UnixSocketConfig{} // given, with nothing set
+		vCover("unix-socket-config")
+	}
 	dirsBefore := len(wFiles)
 	_, err := w.c.Start()
 	if err == nil {
@@ -1236,6 +1268,13 @@ func harnessC05killAfter() {
 	if vChoice(2) == 1 {
 		vSleepUntil(vNow() + 3*sec) // the exit has been recorded by the client's wait goroutine
 		vCover("kill-later")
+	}
+	if vChoice(2) == 1 {
+		// the caller tries again before cleaning up (Start, Client or Protocol): refused, and it must not make the
+		// client forget what the first attempt created
+		vCover("second-start-before-kill")
+		_, err2 := w.c.Start()
+		vAssert(err2 != nil, "C19: a second Start after a failed one does not succeed")
 	}
 	r := wTimed(func() error { w.c.Kill(); return nil })
 	vAssert(!r.panicked && r.took <= sec, "C05: a later Kill returns promptly")
@@ -1431,6 +1470,10 @@ func harnessC19concurrent() {
 	var o wOpts
 	o.grpc = vChoice(2) == 1
 	o.allowed = 1
+	if vChoice(2) == 1 {
+		o.tls = 1 // AutoMTLS: Start generates a certificate before it launches
+		vCover("automtls")
+	}
 	w := wSetup(o)
 	c, p := w.c, w.p
 	var addrs [2]net.Addr
@@ -1570,6 +1613,12 @@ func harnessC16world() {
 		c, _, _ := generateCert()
 		vSetenvProc(p.id, "PLUGIN_CLIENT_CERT", string(c))
 		vCover("client-cert")
+	}
+	if vChoice(2) == 1 {
+		// a socket directory whose name contains a per cent sign (it comes from the host, or from $TMPDIR): the address
+		// is announced exactly as it is listened on
+		vCover("percent-in-socket-dir")
+		vSetenvProc(p.id, "PLUGIN_UNIX_SOCKET_DIR", "/tmp/50%done")
 	}
 	if versioned {
 		if vChoice(2) == 1 {
